@@ -67,14 +67,21 @@ func c13Stmt(r *simrt.RNG, depth int) string {
 		n = 1000 + r.Intn(1000000) // identifiers this process has most likely never seen
 	}
 	a, b := 1+r.Intn(5), 1+r.Intn(5)
-	switch r.Intn(16) {
+	switch r.Intn(17) {
+	case 16:
+		// comments are part of the tree (meta data of the node they stand next to)
+		return fmt.Sprintf("# pre %d-%d\ncm%d := %d /* post %d-%d */", n, a, n, a, n, b)
 	case 15:
 		// the same constant text in both quote styles: an escaped double quote is fine between
 		// double quotes and a lexical error between single quotes
-		if r.Bool(0.5) {
+		if r.Bool(0.3) {
 			return fmt.Sprintf("qs%d := \"x%d\\\"y\"", n, a%2)
 		}
-		return fmt.Sprintf("qs%d := 'x%d\\\"y'", n, a%2)
+		if r.Bool(0.5) {
+			return fmt.Sprintf("qs%d := 'x%d\\\"y'", n, a%2)
+		}
+		// a single-quoted constant with a plain double quote inside and a payload of its own
+		return fmt.Sprintf("qt%d := 'p%d\"q%d-%d-%d'", n, n, a, b, n*7+a)
 	case 14:
 		return fmt.Sprintf("import \"lib.ecal\" as lb%d\nu%d := lb%d.pair[0] + lb%d.twice(%d)", n, n, n, n, a)
 	case 13:
@@ -373,6 +380,11 @@ func c13Digest(n *parser.ASTNode) string {
 		}
 		for _, c := range n.Name + "\x00" + val + "\x01" {
 			h = (h ^ uint64(c)) * 1099511628211
+		}
+		for _, md := range n.Meta {
+			for _, c := range md.Type() + "\x02" + md.Value() + "\x03" {
+				h = (h ^ uint64(c)) * 1099511628211
+			}
 		}
 		h = (h ^ uint64(len(n.Children)+depth*31)) * 1099511628211
 		if b.Len() < 600 {
